@@ -2,10 +2,13 @@ package nodeprops
 
 import (
 	"fmt"
+	"io"
 	"net"
+	"os"
 	"reflect"
 	"sync"
 	"sync/atomic"
+	"syscall"
 	"testing"
 	"time"
 
@@ -498,6 +501,7 @@ func TestC11(t *testing.T) {
 		"writes naming a foreign channel and a closed channel object, concurrent incoming traffic, one channel closing and re-opening in a third of the scenarios, v1 nodes in a quarter; " +
 		"flow control keeps every goroutine's outstanding items per channel <= W with writers x W <= 48 < 64 so that any missing item is a loss; hook perturbation at api.write, loop.*, ch.enqueue, ch.writer.dequeue. " +
 		"Offline checker over unique ids: whole frames only, at most once, isolation (To / Except / closed / foreign), delivery to channels open for the whole call, FIFO per (goroutine, channel), header fields. " +
+		"A separate scenario makes one transport write fail once (plain error, deadline exceeded, EPIPE, short write) and demands exactly-once in-order delivery of everything written afterwards to the still open channel. " +
 		"distinct = distinct interleaving signatures")
 	rep.Assume("channels that open or close during a call may or may not receive it; linearizability across goroutines is not demanded (only per-goroutine order is promised)")
 	seed := shardSeed()
@@ -506,6 +510,9 @@ func TestC11(t *testing.T) {
 		c11scenario(rep, seed, i)
 		if i%4 == 3 {
 			c11tcp(rep, seed, i)
+		}
+		if i%10 == 9 {
+			c11transient(rep, seed, i/10)
 		}
 		if rep.NViolations() > 4 {
 			break
@@ -516,6 +523,128 @@ func TestC11(t *testing.T) {
 	rep.Floor("hook:ch.enqueue", 5000)
 	rep.Floor("scenarios_with_closing_channel", 3)
 	rep.Floor("scenarios_tcp", 3)
+}
+
+// c11transient: one write on one channel fails once (the kinds of error a transport reports when it is briefly unable to
+// take output); the channel stays open and is healthy again: unless it is reported closed, everything written afterwards
+// with All / To / Except reaches it exactly once and in order, like every other channel.
+func c11transient(rep *vh.Report, seed uint64, idx int) {
+	if aborted() {
+		return
+	}
+	r := vh.Sub(seed, fmt.Sprintf("c11-transient-%d", idx))
+	hookReset(r.U64(), true, false)
+	k := 2 + r.Intn(3)
+	n := c13start(rep, k, false, idx%2 == 1)
+	if n == nil {
+		return
+	}
+	n.cons.prop = "C11"
+	const fam = 0xC7
+	victim := r.Intn(k)
+	all := make([]int, k)
+	for i := range all {
+		all[i] = i
+	}
+	n.writeFlow(rep, r, fam, 0, 5+r.Intn(20), all, -1, false)
+	werrs := []error{errWrite, os.ErrDeadlineExceeded, syscall.EPIPE, io.ErrShortWrite, &net.OpError{Op: "write", Net: "tcp", Err: os.ErrDeadlineExceeded}}
+	werr := werrs[idx%len(werrs)]
+	n.trs[victim].FailWriteAt(n.trs[victim].WriteCalls()+1, werr, false)
+	_ = n.node.WriteMessageAll(&MessageVfUid{Uid: uint64(fam)<<56 | 999}) // the item that meets the failure
+	waitFor(func() bool {
+		return n.trs[victim].NWrites() > 0 && n.trs[victim].WriteAt(n.trs[victim].NWrites()-1).Failed
+	}, func() int64 { return int64(n.trs[victim].WriteCalls()) }, 500*time.Millisecond)
+	// later items, one at a time so that no backlog builds up: All, To(victim), Except(another)
+	type exp struct {
+		uid uint64
+		on  []bool
+	}
+	var exps []exp
+	other := (victim + 1) % k
+	for i := 0; i < 30; i++ {
+		uid := uint64(fam)<<56 | uint64(1000+i)
+		m := &MessageVfUid{Uid: uid, Kind: 1}
+		on := make([]bool, k)
+		switch i % 3 {
+		case 0:
+			_ = n.node.WriteMessageAll(m)
+			for j := range on {
+				on[j] = true
+			}
+		case 1:
+			_ = n.node.WriteMessageTo(n.chans[victim], m)
+			on[victim] = true
+		case 2:
+			_ = n.node.WriteMessageExcept(n.chans[other], m)
+			for j := range on {
+				on[j] = j != other
+			}
+		}
+		exps = append(exps, exp{uid, on})
+		time.Sleep(300 * time.Microsecond)
+	}
+	later := func(ti int) []uint64 {
+		var out []uint64
+		acc, _ := wireUIDs(n.trs[ti], fam)
+		for _, u := range acc {
+			if u&0xFFFFFFFF >= 1000 {
+				out = append(out, u)
+			}
+		}
+		return out
+	}
+	want := make([][]uint64, k)
+	for _, e := range exps {
+		for j := range e.on {
+			if e.on[j] {
+				want[j] = append(want[j], e.uid)
+			}
+		}
+	}
+	victimClosed := func() bool {
+		for _, ci := range n.cons.allChannels() {
+			if sn := n.cons.snapshot(ci); sn.Tr == n.trs[victim] && sn.State == 2 {
+				return true
+			}
+		}
+		return false
+	}
+	waitFor(func() bool {
+		for j := 0; j < k; j++ {
+			if len(later(j)) < len(want[j]) && !(j == victim && victimClosed()) {
+				return false
+			}
+		}
+		return true
+	}, func() int64 {
+		var p int64
+		for _, tr := range n.trs {
+			p += int64(tr.WriteCalls())
+		}
+		return p + n.cons.nEvents()
+	}, 1200*time.Millisecond)
+	for j := 0; j < k; j++ {
+		got := later(j)
+		if j == victim && victimClosed() {
+			rep.Count("transient_failure_led_to_close_event", 1)
+			continue
+		}
+		if fmt.Sprint(got) != fmt.Sprint(want[j]) {
+			what := "what=lost ep=custom"
+			if len(got) > len(want[j]) {
+				what = "what=isolation ep=custom"
+			}
+			rep.Violation(what, fmt.Sprintf("after one failed transport write (%v) on channel %d, the open channel %d received %d of the %d items written to it afterwards (exactly those, in order, expected)", werr, victim, j, len(got), len(want[j])),
+				map[string]interface{}{"victim": victim, "channel": j, "write_error": werr.Error(), "got": got, "want": want[j], "backlog": n.chans[j].VerifBacklog()})
+		}
+	}
+	if !safeClose(rep, n.node) {
+		return
+	}
+	<-n.cons.done
+	rep.Eval(1)
+	rep.Count("scenarios_transient_write_error", 1)
+	rep.Distinct("transient", idx, k, victim)
 }
 
 // c11tcp: the same fan-out properties over real TCP connections (server endpoint, k loopback peers).
